@@ -129,6 +129,30 @@ def _trunc_work(task):
     return n, fails, hist
 
 
+# characters outside ASCII (letters of several scripts, symbols, a non-breaking
+# space, a superscript digit) mixed with a few ASCII ones
+NONASCII_CHARS = list("\u00e9\u00df\u00b5\u03bb\u0416\u4e2d\u20ac\u00a0\u00b2a1 ;\"'_")
+
+
+def _nonascii_work(task):
+    first, L = task
+    n = 0
+    fails = []
+    hist = {}
+    for l in range(0, L):
+        for rest in itertools.product(NONASCII_CHARS, repeat=l):
+            body = first + "".join(rest)
+            for s in (body, "int " + body + " ;", "int x = " + body + " ;"):
+                out = core.parse_outcome(s, "f.c")
+                n += 1
+                k = out[0] if out[0] != "exc" else out[1]
+                hist[k] = hist.get(k, 0) + 1
+                sig = oracle(out, "f.c", s)
+                if sig is not None:
+                    fails.append((sig, {"text": s, "filename": "f.c"}, out[-1]))
+    return n, fails, hist
+
+
 def _edit_work(task):
     name, toks, edits = task
     n = 0
@@ -265,6 +289,12 @@ def run(tier):
         merge(h)
     char_runs += trunc_runs
     R.set("truncation_runs", trunc_runs)
+
+    # (c3) strings with characters outside ASCII
+    for n, fl, h in core.pmap(_nonascii_work, [(c, 3 if quick else 4) for c in NONASCII_CHARS], chunksize=1):
+        char_runs += n
+        R.fail_many(fl)
+        merge(h)
 
     # (c2) literal-shaped strings through the parser
     LL = 4 if quick else 5
